@@ -48,7 +48,7 @@ prop(
 
 prop(
     "C02",
-    rules=["C02-R1", "C02-R2", "C02-R4", "X-EXT@remover", "X-EXT@creator", "X-EXT@grower", "X-EXT@view", "X-EXT@borrow", "X-EXT@other", "C02-R5", "C02-R3", "X-EXT@prim", "C02-R7"],
+    rules=["C02-R1", "C02-R2", "C02-R4", "X-EXT@remover", "X-EXT@creator", "X-EXT@grower", "X-EXT@view", "X-EXT@borrow", "X-EXT@other", "C02-R5", "C02-R3", "X-EXT@prim", "C02-R7", "C01-R4"],
     mir_rules=[S.rule_creator, S.rule_remover, S.rule_extent, S2.rule_grower, SP.rule_iter_loops, S2.rule_dataptr_primitives, S2.rule_alloc_discipline, S2.rule_payload_use],
     floors={"C02-R3": 6, "C02-R1": lambda c: 3 * n_storages(c), "C02-R2": lambda c: 4 * n_storages(c), "X-EXT@remover": lambda c: 3 * n_storages(c), "X-EXT@creator": lambda c: n_storages(c), "X-EXT@view": lambda c: 2 * n_storages(c)},
     explanation="Static analysis. Decides: C02-R1 the creator writes the handle and all N components at one index = pre-increment len, component i into column i; "
@@ -56,7 +56,7 @@ prop(
     "X-EXT every slice/raw view of an array is cut at the extent it is valid for (len for dense arrays, capacity for slots), fresh at the call; "
     "C02-R3 the DataPtr primitives address what they say: write(i, v) stores at cell i without reading it, swap_remove(i, len) returns cell i and copies exactly cell len-1 into it (read before copy), slice(len) = from_raw_parts(base, len), "
     "and growth carries the old cells over: realloc(self.0, array layout of old_capacity, byte size of the array layout of capacity), or alloc + copy of old_capacity cells of T (typed, or old_capacity*size_of::<T>() bytes) + dealloc with the old layout; "
-    "any other memory move inside DataPtr is reported; C02-R4/R5 readers and expansions use one resolved index for every column of a visit; C02-R7 resolve_for (the index every access path uses) is built from the dense component of the resolver's (slot, dense) pair only.",
+    "any other memory move inside DataPtr is reported; C02-R4/R5 readers and expansions use one resolved index for every column of a visit; C02-R7 resolve_for (the index every access path uses) is built from the dense component of the resolver's (slot, dense) pair only.; C01-R4 (shared with C01) the swap-remove fix-up re-points the slot of the entity that was moved into the vacated cell on every path: without it that entity's handle reads the row of whoever is created there next",
     not_decided="that columns stay in lock-step over histories (I2/I3); value equality is never computed",
 )
 
@@ -110,7 +110,7 @@ prop(
 
 prop(
     "C04",
-    rules=["C04-R2", "C04-R3", "C04-R4", "C04-R5", "X-WMC", "X-EXT@dropper", "C04-R1", "C04-R7", "C04-R8", "C10-R1", "C04-R6"],
+    rules=["C04-R2", "C04-R3", "C04-R4", "C04-R5", "X-WMC", "X-EXT@dropper", "C04-R1", "C04-R7", "C04-R8", "C10-R1", "C04-R6", "C10-R8"],
     mir_rules=[S.rule_remover, S2.rule_dropper, S2.rule_push_guards, S2.rule_cloner, S2.rule_who_may, S.rule_extent, S2.rule_dataptr_primitives, S2.rule_forbidden_calls, S2.rule_alloc_discipline, U.rule_commit_sections, S2.rule_implicit_drops],
     floors={"C04-R6": lambda c: 10 * n_storages(c), "C04-R1": 15, "C04-R2": lambda c: n_storages(c), "C04-R3": lambda c: 5 * n_storages(c), "C04-R4": lambda c: 5 * n_storages(c), "C04-R5": lambda c: n_storages(c), "X-WMC": lambda c: 6 * n_storages(c)},
     explanation="Static analysis. Decides: X-WMC the ownership primitives (write, swap_remove, drop_to, dealloc, grow) are called only by the functions whose role owns them; "
@@ -137,8 +137,8 @@ prop(
 
 prop(
     "C10",
-    rules=["C10-R1", "C10-R2", "C10-R4", "C10-R3", "C10-R6", "C10-R7"],
-    mir_rules=[U.rule_commit_sections, S2.rule_grower, S2.rule_ctor, SP.rule_sealed_callbacks, U.rule_clone_unwind, S2.rule_populate],
+    rules=["C10-R1", "C10-R2", "C10-R4", "C10-R3", "C10-R6", "C10-R7", "C10-R8"],
+    mir_rules=[U.rule_commit_sections, S2.rule_grower, S2.rule_ctor, SP.rule_sealed_callbacks, U.rule_clone_unwind, S2.rule_populate, S2.rule_dropper],
     floors={"C10-R6": lambda c: n_storages(c), "C10-R1": lambda c: 7 * n_storages(c), "C10-R2": lambda c: 2 * n_storages(c), "C10-R4": lambda c: 2 * n_storages(c)},
     explanation="Static analysis (may-unwind classification of every effect on every path, closed std tables, fail closed on unclassified callees). Decides: C10-R1 no creator, remover, grower or entry point wrapping them "
     "has a may-unwind point between its first and its last state write (nor a panic path after the first write), exemptions only by keyed table entry with reason; C10-R2 the documented capacity panics precede all writes; "
@@ -180,7 +180,7 @@ prop(
 
 prop(
     "C05",
-    rules=["C05-R1", "C05-R2", "C05-R3", "C05-R4", "C05-R5", "C05-R7", "C05-R6", "C05-R8", "C05-R9"],
+    rules=["C05-R1", "C05-R2", "C05-R3", "C05-R4", "C05-R5", "C05-R7", "C05-R6", "C05-R8", "C05-R9", "C05-R10"],
     static_rules=[T.rule_sibling_helpers, CP.rule_query_corpus],
     static_floors={'C05-R6': 1, 'C05-R8': 150},
     mir_rules=[M.rule_bind_query_params, M.rule_contains_component, M.rule_bind_one_of, M.rule_generators, SP.rule_find_dispatch, SP.rule_iter_loops],
@@ -223,7 +223,7 @@ prop(
 
 prop(
     "C15",
-    rules=["C15-R1", "C15-R2", "C15-R3", "C15-R4", "C15-R7", "C16-R4", "C15-R6", "C15-R8", "C15-R5", "C14-R5"],
+    rules=["C15-R1", "C15-R2", "C15-R3", "C15-R4", "C15-R7", "C16-R4", "C15-R6", "C15-R8", "C15-R5", "C14-R5", "C15-R9"],
     static_rules=[T.rule_template_shapes, CP.rule_id_corpus],
     static_floors={'C15-R6': 1, 'C15-R8': 400},
     mir_rules=[M.rule_advance_id, M.rule_dataworld, SP.rule_tables],
@@ -272,7 +272,7 @@ prop(
 
 prop(
     "C19",
-    rules=["C19-R1", "C19-R2", "C19-R3", "C19-R4", "C19-R5", "C19-R6", "C19-R7"],
+    rules=["C19-R1", "C19-R2", "C19-R3", "C19-R4", "C19-R5", "C19-R6", "C19-R7", "C19-R8", "C08-R2"],
     static_rules=[T.rule_cfg_inventory],
     static_floors={"C19-R1": 15, "C19-R2": 20, "C19-R6": 3},
     mir_rules=[X.rule_debug_checks, S.rule_version_next, X.rule_assumes],
